@@ -123,7 +123,7 @@ struct Gen {
     s.op.c = (uint8_t)rng.below(NTu);
     if (op == OP_GENERATOR || op == OP_T_GENERATOR_M) s.op.c = (uint8_t)rng.below(vt->dof);
     if (op == OP_SMOOTH_PHI) { s.op.c = (uint8_t)(1 + rng.below(4)); s.op.s = rng.unit(); }
-    if (op == OP_INTERP_SLERP || op == OP_INTERP_CUBIC || op == OP_INTERP_SMOOTH) s.op.s = round_scalar(vt, rng.unit());
+    if (op == OP_INTERP_SLERP || op == OP_INTERP_CUBIC || op == OP_INTERP_SMOOTH) { double u = rng.unit(); s.op.s = u < 0.1 ? 0.0 : u < 0.2 ? 1.0 : round_scalar(vt, rng.unit()); }
     if (op == OP_ISAPPROX || op == OP_T_ISAPPROX) s.op.s = vt->eps * (rng.chance(0.5) ? 1 : 1e6);
     if (op == OP_T_SCALE) s.op.s = round_scalar(vt, rng.uniform(-2, 2));
     s.op.ka = (uint8_t)rng.below(3);
@@ -131,7 +131,8 @@ struct Gen {
     if (op == OP_BRACKET || op == OP_JT_MUL) { s.op.ka = K_OWN; s.op.kb = K_OWN; }
     if (inf.nout) s.op.mask = (uint8_t)rng.below(1u << inf.nout);
     if (inf.nout && rng.chance(0.2)) s.op.variant |= (uint8_t)(rng.below(4));   // bind outputs into blocks
-    if (rng.chance(0.3)) s.op.variant |= V_FRESH;   // thread-private temporary view instead of the shared Map object
+    if (rng.chance(0.3)) s.op.variant |= V_FRESH;
+    if (s.op.op == OP_COEFFS && rng.chance(0.5)) s.op.variant |= V_ALT;   // thread-private temporary view instead of the shared Map object
     if (rng.chance(0.15) && (op == OP_INTERP_SLERP || op == OP_INTERP_CUBIC || op == OP_INTERP_SMOOTH || op == OP_T_SCALE)) s.op.variant |= V_ALT;
     return s;
   }
@@ -168,6 +169,7 @@ struct Gen {
       const GroupVT* vt = vts[g];
       for (int i = 0; i < vt->NE; ++i) {
         ElemSpec sp; sp.neg_hemisphere = rng.chance(0.3); sp.lin_lo = 1e-2; sp.lin_hi = 10;
+        spice_elem_spec(vt, rng, sp);
         double c[32]; gen_elem(vt, rng, sp, c);
         plan.steps.push_back(make_set(ST_SETE, g, i, c, vt->rep));
       }
@@ -177,7 +179,7 @@ struct Gen {
         plan.steps.push_back(make_set(ST_SETT, g, i, t, vt->dof));
       }
       for (int i = 0; i < vt->NP; ++i) { double p[32]; gen_pt(vt, rng, 1e-2, 10, p); plan.steps.push_back(make_set(ST_SETP, g, i, p, vt->dim)); }
-      Step v; v.kind = ST_SETVEC; v.group = (uint8_t)g; int n = 2 + rng.below(3); for (int i = 0; i < n; ++i) v.vals.push_back(i);
+      Step v; v.kind = ST_SETVEC; v.group = (uint8_t)g; int n = 1 + rng.below(4); for (int i = 0; i < n; ++i) v.vals.push_back(i);
       plan.steps.push_back(v);
     }
     // hot list: constants that several threads reach within a few decisions of each other
